@@ -36,3 +36,32 @@ Lemma api_sequences_lock : forall l r,
   exec generated_prog (calls l) empty_state r ->
   r = RNorm empty_state \/ r = RAbort.
 Proof. exact (api_sequence_sound generated_prog generated_ok). Qed.
+
+(* ---- the entry-state assumption made visible ------------------------------------------------
+   answer.Return is accepted only for callers that own no Conn task in any enclosing frame; the
+   same body entered by a thread that does own one (the receive goroutine, which owns the NewConn
+   task and does run Return synchronously inside handleCall) is REJECTED: its sendReturn-error
+   branch runs shutdown -> tasks.Wait().  Calls of Returner.Return are opaque call-outs, so the
+   checker does not compare callers with this entry condition; that the branch is unreachable on
+   the receive goroutine is an assumption recorded in props/C09.py (finishReceived cannot be set
+   while handleCall for the same answer is still running).  See docs/C09.md section 6b. *)
+Definition check_entry (name : string) (c : ccase) : option bool :=
+  match index_of name generated_prog 0 with
+  | Some i =>
+      match nth_error generated_prog i with
+      | Some fd => match f_body fd with
+                   | Some b => Some (check_case generated_prog b c)
+                   | None => None
+                   end
+      | None => None
+      end
+  | None => None
+  end.
+
+Example return_entered_owning_a_task_rejected :
+  check_entry "answer.Return" (mkCn nil false 1 (cons (mkE 0 nil false 0) nil)) = Some false.
+Proof. vm_compute. reflexivity. Qed.
+
+Example return_entered_clean_accepted :
+  check_entry "answer.Return" (mkC nil false 1 (cons (mkE 0 nil false 0) nil)) = Some true.
+Proof. vm_compute. reflexivity. Qed.
